@@ -116,6 +116,116 @@ Section VarVM.
     - exists n. intros f. exact (Hr f).
   Qed.
 
+  (* ---------------------------------------------------------------- x op= e  and  x++ / x-- *)
+  Lemma vm_binstore rho room s i o (a b : F.sval) base_pos :
+    (* at base_pos: the operator's two slots, then StoreGlobal i; on the stack b above a *)
+    vm_inv rho room s -> i < length rho -> is_cmp o = false ->
+    forall x y post0 pre0, F.op_code o = [x; y] ->
+    instr = pre0 ++ [x; y] ++ [opStoreGlobal; N.of_nat i] ++ post0 -> base_pos = length pre0 ->
+    below + 2 <= MAXSTACK ->
+    forall f,
+      runs (S (S f)) base_pos [inj b; inj a] s =
+      match F.sbin o a b with
+      | inl rv => runs f (base_pos + 4) [] (upd_globals s (lset (globals s) i (inj rv)))
+      | inr e => (RErr (cls e) s, defers)
+      end.
+  Proof.
+    intros Hinv Hi Hc x y post0 pre0 Ho Hins -> Hb f.
+    assert (Hx : x = opBinaryOp) by (destruct o; try discriminate; cbn in Ho; congruence).
+    subst x.
+    rewrite (step_binop tabs c below frames free defers is_main s (S f) (length pre0) [] (inj a) (inj b));
+      [|rewrite Hins; apply at0|cbn [length]; lia].
+    assert (E : nth (length pre0 + 1) instr 0%N = y) by (rewrite Hins; apply at1).
+    rewrite E, (binop_inj s o a b _ y Hc Ho).
+    destruct (F.sbin o a b) as [rv|e]; [|reflexivity].
+    assert (Hx : instr = (pre0 ++ [opBinaryOp; y]) ++ opStoreGlobal :: N.of_nat i :: post0) by (rewrite Hins, <- !app_assoc; reflexivity).
+    assert (Hl : length (pre0 ++ [opBinaryOp; y]) = length pre0 + 2) by (rewrite app_length; reflexivity).
+    rewrite (step_store f (length pre0 + 2) [] (inj rv) s) by (rewrite Hx, <- Hl; apply at0).
+    assert (E2 : nth (length pre0 + 2 + 1) instr 0%N = N.of_nat i) by (rewrite Hx, <- Hl; apply at1).
+    rewrite E2, Nat2N.id. replace (length pre0 + 2 + 2) with (length pre0 + 4) by lia. reflexivity.
+  Qed.
+
+  Lemma vm_setop rho room s i o e base pre post :
+    vm_inv rho room s -> i < length rho -> P.is_compound o = true -> F.wf (length rho) e = true ->
+    instr = pre ++ ([opLoadGlobal; N.of_nat i] ++ fst (F.cexp base e) ++ F.op_code o ++ [opStoreGlobal; N.of_nat i]) ++ post ->
+    (forall j kk, nth_error (snd (F.cexp base e)) j = Some kk -> nth (base + j) (code_consts c) (KInt 0) = kk) ->
+    below + S (F.need e) <= MAXSTACK ->
+    exists k, forall f,
+      match F.sev rho e with
+      | inl v =>
+          match F.sbin o (nth i rho F.VNil) v with
+          | inl rv => runs (k + f) (length pre) [] s =
+                      runs f (length pre + length ([opLoadGlobal; N.of_nat i] ++ fst (F.cexp base e) ++ F.op_code o ++ [opStoreGlobal; N.of_nat i])) []
+                           (upd_globals s (lset (globals s) i (inj rv)))
+          | inr x => runs (k + f) (length pre) [] s = (RErr (cls x) s, defers)
+          end
+      | inr x => runs (k + f) (length pre) [] s = (RErr (cls x) s, defers)
+      end.
+  Proof.
+    intros Hinv Hi Ho Hwf Hins Hc Hn. pose proof (vm_inv_globals_ok rho room s Hinv) as Hg.
+    assert (Hnc : is_cmp o = false) by (destruct o; try discriminate; reflexivity).
+    destruct (op_code_shape o) as [x [y [Hoc _]]].
+    set (ce := fst (F.cexp base e)) in *.
+    set (old := nth i rho F.VNil).
+    assert (Hold : nth i (globals s) VGoNil = inj old) by (destruct Hinv as [_ H]; exact (H i Hi)).
+    set (pre1 := pre ++ [opLoadGlobal; N.of_nat i]).
+    assert (Hl1 : length pre1 = length pre + 2) by (unfold pre1; rewrite app_length; reflexivity).
+    assert (Hi1 : instr = pre1 ++ ce ++ (F.op_code o ++ [opStoreGlobal; N.of_nat i] ++ post))
+      by (rewrite Hins; unfold pre1; rewrite <- !app_assoc; reflexivity).
+    destruct (vm_scalar tabs c below frames free defers is_main s rho Hg e base pre1 _ [inj old] Hwf Hi1 Hc ltac:(cbn [length]; lia)) as [n Hr].
+    unfold outcome_of in Hr. fold ce in Hr.
+    assert (Hload : forall f, runs (S f) (length pre) [] s = runs f (length pre1) [inj old] s).
+    { intros f. rewrite (step_loadglobal tabs c below frames free defers is_main s f (length pre) [] (inj old));
+        [rewrite Hl1; reflexivity|rewrite Hins; apply at0|cbn [length]; lia| |apply inj_not_gonil].
+      assert (E : nth (length pre + 1) instr 0%N = N.of_nat i) by (rewrite Hins; apply at1).
+      rewrite E, Nat2N.id. exact Hold. }
+    destruct (F.sev rho e) as [v|xx].
+    - exists (1 + (n + 2)). intros f.
+      replace (1 + (n + 2) + f) with (S (n + (S (S f)))) by lia. rewrite Hload, Hr.
+      assert (Hi2 : instr = (pre1 ++ ce) ++ [x; y] ++ [opStoreGlobal; N.of_nat i] ++ post)
+        by (rewrite Hi1, Hoc, <- !app_assoc; reflexivity).
+      rewrite (vm_binstore rho room s i o old v (length pre1 + length ce) Hinv Hi Hnc x y post (pre1 ++ ce) Hoc Hi2
+                 ltac:(rewrite app_length; reflexivity) ltac:(pose proof (PF.need_pos e); lia) f).
+      destruct (F.sbin o old v) as [rv|xx]; [|reflexivity].
+      f_equal. rewrite Hl1, !app_length, Hoc. cbn [length]. fold ce. lia.
+    - exists (1 + n). intros f. replace (1 + n + f) with (S (n + f)) by lia. rewrite Hload. exact (Hr f).
+  Qed.
+
+  Lemma vm_incdec rho room s i (up : bool) base pre post :
+    vm_inv rho room s -> i < length rho ->
+    instr = pre ++ [opLoadGlobal; N.of_nat i; opLoadConst; N.of_nat base; opBinaryOp; bAdd; opStoreGlobal; N.of_nat i] ++ post ->
+    nth base (code_consts c) (KInt 0) = KInt (if up then 1 else -1) ->
+    below + 2 <= MAXSTACK ->
+    exists k, forall f,
+      match F.sbin F.BAdd (nth i rho F.VNil) (F.VInt (if up then 1 else -1)) with
+      | inl rv => runs (k + f) (length pre) [] s = runs f (length pre + 8) [] (upd_globals s (lset (globals s) i (inj rv)))
+      | inr x => runs (k + f) (length pre) [] s = (RErr (cls x) s, defers)
+      end.
+  Proof.
+    intros Hinv Hi Hins Hk Hn.
+    set (old := nth i rho F.VNil).
+    assert (Hold : nth i (globals s) VGoNil = inj old) by (destruct Hinv as [_ H]; exact (H i Hi)).
+    exists 4. intros f. cbn [Nat.add].
+    rewrite (step_loadglobal tabs c below frames free defers is_main s (S (S (S f))) (length pre) [] (inj old));
+      [|rewrite Hins; apply at0|cbn [length]; lia| |apply inj_not_gonil].
+    2:{ assert (E : nth (length pre + 1) instr 0%N = N.of_nat i) by (rewrite Hins; apply at1). rewrite E, Nat2N.id. exact Hold. }
+    assert (Hi1 : instr = (pre ++ [opLoadGlobal; N.of_nat i]) ++ opLoadConst :: N.of_nat base :: ([opBinaryOp; bAdd; opStoreGlobal; N.of_nat i] ++ post))
+      by (rewrite Hins, <- !app_assoc; reflexivity).
+    assert (Hl1 : length (pre ++ [opLoadGlobal; N.of_nat i]) = length pre + 2) by (rewrite app_length; reflexivity).
+    rewrite (step_const tabs c below frames free defers is_main s (S (S f)) (length pre + 2) [inj old]);
+      [|rewrite Hi1, <- Hl1; apply at0|cbn [length]; lia].
+    assert (E : nth (length pre + 2 + 1) instr 0%N = N.of_nat base) by (rewrite Hi1, <- Hl1; apply at1).
+    rewrite E, Nat2N.id, Hk.
+    assert (Hi2 : instr = (pre ++ [opLoadGlobal; N.of_nat i; opLoadConst; N.of_nat base]) ++ [opBinaryOp; bAdd] ++ [opStoreGlobal; N.of_nat i] ++ post)
+      by (rewrite Hins, <- !app_assoc; reflexivity).
+    change (const_value (KInt (if up then 1 else -1))) with (inj (F.VInt (if up then 1 else -1))).
+    rewrite (vm_binstore rho room s i F.BAdd old (F.VInt (if up then 1 else -1)) (length pre + 2 + 2) Hinv Hi eq_refl
+               opBinaryOp bAdd post (pre ++ [opLoadGlobal; N.of_nat i; opLoadConst; N.of_nat base]) eq_refl Hi2
+               ltac:(rewrite app_length; cbn [length]; lia) Hn f).
+    destruct (F.sbin F.BAdd old (F.VInt (if up then 1 else -1))) as [rv|xx]; [|reflexivity].
+    f_equal. lia.
+  Qed.
+
   (* ---------------------------------------------------------------- statements, lists, blocks, loops *)
   Definition consts_at (base : nat) (ks : list konst) : Prop :=
     forall i kk, nth_error ks i = Some kk -> nth (base + i) (code_consts c) (KInt 0) = kk.
@@ -431,7 +541,7 @@ Section VarVM.
     induction n as [n IH] using lt_wf_ind.
     destruct n as [|n]; [intros st rho room s base pre post top lp L bt ct r _ _ _ _ _ _ Hr; discriminate|].
     intros st rho room s base pre post top lp L bt ct r Hinv Hwf Hi Hc Hn Hin Hr.
-    destruct st as [e|i e|e|cnd t el|cnd t|cnd b| |].
+    destruct st as [e|i e|i o e|i up|e|cnd t el|cnd t|cnd b| |].
     - (* x := e *)
       cbn [P.stmt_code P.wf_stmt P.is_expr_stmt P.run_stmt P.sneed P.ndecls Nat.add] in *.
       apply andb_true_iff in Hwf. destruct Hwf as [_ Hwf].
@@ -457,6 +567,28 @@ Section VarVM.
       destruct (F.sev rho e) as [v|x]; cbn [P.of_sev] in Hr; inversion Hr; subst r.
       + exists k, (upd_globals s (lset (globals s) i (inj v))).
         split; [apply vm_inv_set; assumption|exact Hk].
+      + exists k, s. exact Hk.
+    - (* x op= e *)
+      cbn [P.stmt_code P.wf_stmt P.is_expr_stmt P.run_stmt P.sneed P.ndecls Nat.add] in *.
+      apply andb_true_iff in Hwf. destruct Hwf as [Hwf Ho]. apply andb_true_iff in Hwf. destruct Hwf as [Hilt Hwf]. apply Nat.ltb_lt in Hilt.
+      destruct (F.cexp base e) as [ce ke] eqn:Ee. cbn [fst snd] in *. rewrite npatch_I in Hi. rewrite I_length.
+      assert (Hi' : instr = pre ++ ([opLoadGlobal; N.of_nat i] ++ fst (F.cexp base e) ++ F.op_code o ++ [opStoreGlobal; N.of_nat i]) ++ post)
+        by (rewrite Ee; cbn [fst]; exact Hi).
+      assert (Hc' : consts_at base (snd (F.cexp base e))) by (rewrite Ee; exact Hc).
+      destruct (vm_setop rho _ s i o e base pre post Hinv Hilt Ho Hwf Hi' Hc' Hn) as [k Hk].
+      rewrite Ee in Hk. cbn [fst] in Hk.
+      destruct (F.sev rho e) as [v|x]; [|inversion Hr; subst r; exists k, s; exact Hk].
+      destruct (F.sbin o (nth i rho F.VNil) v) as [rv|x]; cbn [P.of_sev] in Hr; inversion Hr; subst r.
+      + exists k, (upd_globals s (lset (globals s) i (inj rv))). split; [apply vm_inv_set; assumption|exact Hk].
+      + exists k, s. exact Hk.
+    - (* x++ / x-- *)
+      cbn [P.stmt_code P.wf_stmt P.is_expr_stmt P.run_stmt P.sneed P.ndecls Nat.add fst snd] in *. apply Nat.ltb_lt in Hwf.
+      rewrite npatch_I in Hi. rewrite I_length. cbn [length].
+      assert (Hk0 : nth base (code_consts c) (KInt 0) = KInt (if up then 1 else -1)).
+      { pose proof (Hc 0 (KInt (if up then 1 else -1)) eq_refl) as H0. rewrite Nat.add_0_r in H0. exact H0. }
+      destruct (vm_incdec rho _ s i up base pre post Hinv Hwf Hi Hk0 ltac:(lia)) as [k Hk].
+      destruct (F.sbin F.BAdd (nth i rho F.VNil) (F.VInt (if up then 1 else -1))) as [rv|x]; cbn [P.of_sev] in Hr; inversion Hr; subst r.
+      + exists k, (upd_globals s (lset (globals s) i (inj rv))). split; [apply vm_inv_set; assumption|exact Hk].
       + exists k, s. exact Hk.
     - (* e *)
       cbn [P.stmt_code P.islots P.wf_stmt P.is_expr_stmt P.run_stmt P.sneed P.ndecls Nat.add fst snd] in *.
